@@ -467,6 +467,96 @@ check_errors(const unsigned char *p, size_t n, int sof, int srcchunk, int sinkch
     }
 }
 
+/* A transient source error at every position of a stream of three frames, decoding carried on with the SAME
+ * context afterwards: an error between two frames has consumed nothing, so every frame must still arrive; an
+ * error inside a frame may cost that frame, the ones behind it must arrive intact and in order. */
+static void
+check_resume(const unsigned char *g, size_t gn, int sof, int srcchunk, int sinkchunk, unsigned sel)
+{
+    const char *key = modekey(sof, srcchunk, sinkchunk);
+    unsigned char stream[128];
+    size_t sn = 0, bound[4];
+    int pi[3] = { (int)(sel % 5), (int)((sel / 5) % 5), (int)((sel / 25) % 5) };
+    /* the first frame carries the string under test as payload (when it is not empty) */
+    bound[0] = 0;
+    if (gn) {
+        sn += ref_encode(sof, g, gn, stream + sn);
+    } else {
+        sn += ref_encode(sof, PAY[pi[0]].p, PAY[pi[0]].n, stream + sn);
+    }
+    bound[1] = sn;
+    sn += ref_encode(sof, PAY[pi[1]].p, PAY[pi[1]].n, stream + sn);
+    bound[2] = sn;
+    sn += ref_encode(sof, PAY[pi[2]].p, PAY[pi[2]].n, stream + sn);
+    bound[3] = sn;
+    const unsigned char *want[3] = { gn ? g : PAY[pi[0]].p, PAY[pi[1]].p, PAY[pi[2]].p };
+    const size_t wantn[3] = { gn ? gn : PAY[pi[0]].n, PAY[pi[1]].n, PAY[pi[2]].n };
+    for (size_t pos = 0; pos <= sn; pos++) {
+        unsigned char *pin = vh_arena_copy(stream, sn);
+        RFC1055Context ctx;
+        rfc1055_context_init(&ctx, sof ? RFC1055_WITH_SOF : RFC1055_DEFAULT);
+        Source src;
+        Sink snk;
+        struct tsrc ts;
+        static struct tsink tk;
+        mk_source(&src, &ts, srcchunk, pin, sn);
+        ts.fail_at = pos;
+        ts.bound = (unsigned)(3 * sn + 32);
+        unsigned char frames[16][16];
+        size_t flen[16], nf = 0;
+        int nerr = 0;
+        for (unsigned call = 0; call < sn + 6; call++) {
+            mk_sink(&snk, &tk, sinkchunk);
+            int rc = rfc1055_decode(&ctx, &src, &snk);
+            if (ts.runaway) {
+                vh_fail("decode-progress", key, "stream=%s error at %zu: more than %u source calls", vh_hex(stream, sn), pos,
+                        ts.bound);
+                return;
+            }
+            if (rc == ERR_SRC) {
+                nerr++;
+                continue; /* transient: carry on with the same context */
+            }
+            if (rc == -ENODATA)
+                break;
+            if (rc == 1 && tk.n > 0 && nf < 16) {
+                flen[nf] = tk.n > 16 ? 99 : tk.n;
+                memcpy(frames[nf], tk.buf, tk.n > 16 ? 16 : tk.n);
+                nf++;
+            }
+        }
+        /* which frames must arrive? */
+        int first_required = 0;
+        int at_boundary = pos == bound[0] || pos == bound[1] || pos == bound[2] || pos == bound[3];
+        if (!at_boundary)
+            for (int k = 0; k < 3; k++)
+                if (pos > bound[k] && pos < bound[k + 1])
+                    first_required = k + 1;
+        if (at_boundary)
+            VH_COUNT("resume: transient source error between two frames");
+        else
+            VH_COUNT("resume: transient source error inside a frame");
+        int need = 3 - first_required;
+        int ok = nf >= (size_t)need && nerr == 1;
+        for (int k = 0; ok && k < need; k++) {
+            size_t at = nf - (size_t)need + (size_t)k;
+            int w = first_required + k;
+            ok = flen[at] == wantn[w] && memcmp(frames[at], want[w], wantn[w]) == 0;
+        }
+        if (!ok) {
+            char got[300];
+            size_t o = 0;
+            got[0] = 0;
+            for (size_t i = 0; i < nf && o < 250; i++)
+                o += (size_t)snprintf(got + o, sizeof got - o, "[%s]", flen[i] == 99 ? "long" : vh_hex(frames[i], flen[i]));
+            vh_fail("resume-after-source-error", key,
+                    "stream=%s transient source error before octet %zu (%s): delivered %s, %d error returns; the last %d "
+                    "frames must be intact", vh_hex(stream, sn), pos, at_boundary ? "between frames" : "inside a frame", got,
+                    nerr, need);
+        }
+    }
+}
+
 /* ---- units ---- */
 
 static void
@@ -503,6 +593,13 @@ u_strings(uint64_t idx, void *arg)
             check_raw(s, n, sof, sc, kc);
             vh_case_tag("garbage");
             check_garbage(s, n, sof, sc, kc, (unsigned)(x + (uint64_t)cfg));
+        }
+        if (n <= 4 || (x % 11) == 0) {
+            vh_case_tag("resume");
+            for (int cfg = 0; cfg < 8; cfg++) {
+                vh_arena_reset();
+                check_resume(s, n, cfg & 1, (cfg >> 1) & 1, (cfg >> 2) & 1, (unsigned)(x + (uint64_t)cfg));
+            }
         }
         if (n <= 5 || (x % 7) == 0) {
             vh_case_tag("errors");
@@ -566,7 +663,9 @@ harness_run(void)
                                  "encoder: source error injected", "encoder: sink error injected",
                                  "decoder: source error injected", "decoder: sink error injected",
                                  "random payload of control characters only (worst-case length)",
-                                 "enumerated strings of length 7" };
+                                 "enumerated strings of length 7",
+                                 "resume: transient source error between two frames",
+                                 "resume: transient source error inside a frame" };
     for (size_t i = 0; i < sizeof req / sizeof req[0]; i++)
         vh_require(req[i]);
 }
